@@ -46,7 +46,8 @@ def gen(ctx):
             yield scenario(groups, files, OPEN + [l, b"extra1", b"extra2", b"noop", b"exit"])
     ctx["scopes"].append("all 27 verbs x 0..3 arguments, disconnected and after login")
     # get: existing file, directory, over-long names, path-like names, refused download, successful download
-    for loc in (b"keep.txt", b"sub", b".", b"..", b"sub/remote.bin", LONG, VERYLONG, b"nodir/x", b"new.bin", b"", b"a b"):
+    for loc in (b"keep.txt", b"sub", b".", b"..", b"sub/remote.bin", LONG, VERYLONG, b"nodir/x", b"new.bin", b"", b"a b",
+                b"report%20final.txt", b"100%", b"%s%n%x", b"a%1%b%2%", b"%|1$s|"):
         for main in (150, 550, 450):
             groups = LOGIN + xfer("get", main=main) + [R(b"200 noop"), R(b"221 bye")]
             yield scenario(groups, files, OPEN + [b"get remote.bin \"" + loc + b"\"", b"noop", b"exit"])
@@ -60,6 +61,12 @@ def gen(ctx):
     for comp in (226, 451, 552):
         groups = LOGIN + xfer("get", comp=comp) + [R(b"200 noop"), R(b"221 bye")]
         yield scenario(groups, files, OPEN + [b"get remote.bin fresh.bin", b"noop", b"exit"])
+    # names with format directives in every command that echoes user text in a message
+    for name in (b"report%20final.txt", b"%1%", b"%s%s%n", b"100%"):
+        groups = LOGIN + [R(b"550 no")] * 3 + [R(b"221 bye")]
+        for cmd in (b"put ", b"cd ", b"mkdir ", b"del ", b"size ", b"rmdir ", b"ls ", b"rename x "):
+            yield scenario(LOGIN + (xfer("ls", main=550) if cmd == b"ls " else [R(b"550 no"), R(b"550 no")]) + [R(b"200 noop"), R(b"221 bye")], files, OPEN + [cmd + name, b"noop", b"exit"])
+        yield scenario([], files, [b"open " + name + b" 21", b"open 127.0.0.1 " + name, b"pwd", b"exit"])
     # put: missing file, directory, existing file; refused
     for loc in (b"data.bin", b"keep.txt", b"missing.bin", b"sub", LONG):
         for main in (150, 553):
